@@ -107,6 +107,13 @@ def my_tensors(model, pm, data, key, si):
 
 def oracle(ctx):
   fails = []
+  # a quantized model that LiteRT cannot run is C01's subject: no claim here
+  try:
+    for sj in range(len(ctx.built.ops)):
+      lite.run_signature(ctx.outcome.model, ctx.built.input_data(sj, ctx.dkind),
+                         ctx.built.keys[sj])
+  except Exception:
+    return fails
   for si in range(len(ctx.built.ops)):
     fails.extend(_oracle_sig(ctx, si))
   return fails
@@ -136,7 +143,13 @@ def _oracle_sig(ctx, si):
     sub_facts = {'metric': mname,
                  'qtypes': sorted({fbparse.TN[t.type] for t in qm.subs[si].tensors})}
     try:
-      cr = ctx.outcome.qt.validate({key: copy.deepcopy(dataset)}, mname)
+      # every signature in ONE call, with a different number of samples each
+      test_data = {}
+      for sj in range(len(built.ops)):
+        kj = kinds if sj == si else (kinds + ['neg'])[:len(kinds) + 1 - (sj % 2)]
+        test_data[built.keys[sj]] = [built.input_data(sj, k) for k in kj]
+      test_data[key] = copy.deepcopy(dataset)
+      cr = ctx.outcome.qt.validate(test_data, mname)
       r = cr.get_signature_comparison_result(key)
     except Exception as e:
       fails.append(ctx.fail('validate_raises', f'{mname}: {type(e).__name__}: '
